@@ -834,3 +834,12 @@ fire("C06", "per-atom route normalises with its own cell counted twice", "R7.par
      ("sub", "becke.py", "        weights += s_ab[:, select] / np.sum(s_ab, axis=-1)\n", "        weights += s_ab[:, select] / (np.sum(s_ab, axis=-1) + s_ab[:, select])\n"))
 silent("C06", "cell factor written as a quotient",
        ("sub", "becke.py", "        s_ab = 0.5 * (1 - BeckeWeights._switch_func(v_pp, order=self._order))\n", "        s_ab = (1 - BeckeWeights._switch_func(v_pp, order=self._order)) / 2\n", 2))
+
+# ------------------------------------------------------------------------------------------ C05 R8
+fire("C05", "shell weights forget the radial Jacobian r^2", "R8.radial-times-shell/atomgrid.AtomGrid._generate_atomic_grid/weights",
+     ("sub", "atomgrid.py", "            weights = weights * rgrid[i].weights * rgrid[i].points ** 2\n", "            weights = weights * rgrid[i].weights * rgrid[i].points\n"))
+fire("C05", "rotation applied from the left", "R8.radial-times-shell/atomgrid.AtomGrid._generate_atomic_grid/points",
+     ("sub", "atomgrid.py", "                points = points @ rot_mt\n", "                points = (rot_mt @ points.T).T\n"))
+silent("C05", "shell scaled by a named radius and radial weight",
+       ("sub", "atomgrid.py", "            points = points * rgrid[i].points\n            weights = weights * rgrid[i].weights * rgrid[i].points ** 2\n",
+        "            shell = rgrid[i]\n            points = shell.points * points\n            weights = (shell.points**2 * shell.weights) * weights\n"))
